@@ -170,8 +170,9 @@ impl OutputFormat for IcyDraw {
             result.extend(u32::to_le_bytes(flags));
             result.push(layer.transparency);
 
-            result.extend(i32::to_le_bytes(layer.get_offset().x));
-            result.extend(i32::to_le_bytes(layer.get_offset().y));
+            // the layer's real position: a pending preview offset (layer being dragged) is editor state, not part of the document
+            result.extend(i32::to_le_bytes(layer.get_base_offset().x));
+            result.extend(i32::to_le_bytes(layer.get_base_offset().y));
 
             result.extend(i32::to_le_bytes(layer.get_width()));
             result.extend(i32::to_le_bytes(layer.get_height()));
